@@ -166,3 +166,30 @@ def _c40_types(holder):
         return r
 
     TypeInference.SimpleAssignmentTypeInferer.infer_types = infer_types
+
+    # types of the expression nodes of the final tree (what arithmetic is done in C), by position
+    from Cython.Compiler import ModuleNode, Visitor, ExprNodes
+    facts["nodes"] = []
+
+    class Walk(Visitor.TreeVisitor):
+        def visit_Node(self, node):
+            try:
+                if isinstance(node, ExprNodes.ExprNode) and node.pos and getattr(node, "type", None) is not None:
+                    t = node.type
+                    if not t.is_pyobject or isinstance(node, (ExprNodes.BinopNode, ExprNodes.NameNode)):
+                        facts["nodes"].append([int(node.pos[1]), int(node.pos[2]), type(node).__name__,
+                                               str(getattr(node, "operator", "") or getattr(node, "name", "") or ""), str(t)])
+            except Exception as e:
+                facts["errors"].append(repr(e))
+            self.visitchildren(node)
+
+    orig_impl = ModuleNode.ModuleNode.process_implementation
+
+    def process_implementation(self, options, result):
+        try:
+            Walk().visit(self)
+        except Exception as e:
+            facts["errors"].append(repr(e))
+        return orig_impl(self, options, result)
+
+    ModuleNode.ModuleNode.process_implementation = process_implementation
